@@ -18,7 +18,7 @@ VARIABLES tid, l, soft
 tvars == <<cf, i, t, slot, pendI, pendT, nI, nT, viol, faults, stepFaults, last, now, tid, l, soft>>
 
 \* constants of the trace configuration (the per-trace configuration comes from the trace itself)
-TVs == SUBSET {"ack", "atn"}
+TVs == SUBSET {"ack", "atn", "did0"}
 TNone == {}
 
 Traces == ndJsonDeserialize(IOEnv.TRACE_FILE)
@@ -35,13 +35,15 @@ TInit ==
     /\ tid \in 1..Len(Traces)
     /\ l = 1
     /\ soft = {}
-    /\ InitWith([lrI |-> C.lrI, lrT |-> C.lrT, did |-> C.did, nad |-> C.nad,
+    /\ InitWith([lrI |-> C.lrI, lrT |-> C.lrT, did |-> C.did, tdid |-> C.tdid, did0 |-> C.did0, nad |-> C.nad,
                  miuI |-> C.miuI, miuT |-> C.miuT, R |-> C.R])
 
-\* the configuration the two objects hold follows from what was announced
-ConstOk == /\ cf.miuI = cf.lrT - 3 - B(cf.did) - B(cf.nad)
-           /\ cf.miuT \in {cf.lrI - 3, cf.lrI - 3 - B(cf.did)}
-           /\ cf.miuI > 0 /\ cf.miuT > 0 /\ cf.R > 0
+\* the MIUs the two objects hold follow from what the receivers announced (invariant MiuOk); the
+\* conversation is validated with the MIUs the objects really hold, so that a wrong MIU shows up as
+\* frames that do not fit (FrameFits) exactly at the payload sizes k*miu
+ConstOk == cf.miuI > 0 /\ cf.miuT > 0 /\ cf.R > 0 /\ (cf.did0 => cf.did /\ ~cf.tdid) /\ (cf.tdid => cf.did)
+MiuOkP(c0) == /\ c0.miuI = c0.lrT - 3 - B(c0.did) - B(c0.nad)
+              /\ c0.miuT = c0.lrI - 3 - B(c0.tdid)
 
 Ev == T[l]
 IsEv(a) == l <= Len(T) /\ Ev.a = a /\ l' = l + 1 /\ UNCHANGED tid
@@ -85,8 +87,9 @@ Proj == [ipni |-> i'.pni, tpni |-> t'.pni, ierr |-> i'.st = "err",
          now |-> IF i'.st \in {"rel", "end"} THEN Ev.post.now ELSE now']
 PostOk == Ev.a = "Frame" => Proj = Ev.post
 
-InvNames == <<"ExactlyOnce", "Intact", "OnlyCommErr", "FrameFits", "OneFaultOk", "TargetOk", "PniInSync">>
-InvP(n) == CASE n = "ExactlyOnce" -> ExactlyOnceP(viol', pendI', pendT')
+InvNames == <<"MiuOk", "ExactlyOnce", "Intact", "OnlyCommErr", "FrameFits", "OneFaultOk", "TargetOk", "PniInSync">>
+InvP(n) == CASE n = "MiuOk" -> MiuOkP(cf')
+             [] n = "ExactlyOnce" -> ExactlyOnceP(viol', pendI', pendT')
              [] n = "Intact" -> IntactP(i', t', pendI', pendT')
              [] n = "OnlyCommErr" -> OnlyCommErrP(i')
              [] n = "FrameFits" -> FrameFitsP(slot', cf')
@@ -96,7 +99,9 @@ InvP(n) == CASE n = "ExactlyOnce" -> ExactlyOnceP(viol', pendI', pendT')
 AllInv == \A k \in DOMAIN InvNames : InvP(InvNames[k])
 
 Conform == Guarded /\ ResOk /\ PostOk
-Detail(n) == IF n = "FrameFits" THEN [dir |-> slot'.dir, t |-> slot'.t, did |-> slot'.did, size |-> Size(slot')]
+Detail(n) == IF n = "MiuOk" THEN [miuI |-> cf.miuI, expI |-> cf.lrT - 3 - B(cf.did) - B(cf.nad),
+                                   miuT |-> cf.miuT, expT |-> cf.lrI - 3 - B(cf.tdid)]
+             ELSE IF n = "FrameFits" THEN [dir |-> slot'.dir, t |-> slot'.t, did |-> slot'.did, size |-> Size(slot')]
              ELSE IF n = "OneFaultOk" THEN [mode |-> i'.mode, ph |-> i'.ph, err |-> i'.err, stepFaults |-> stepFaults']
              ELSE [st |-> <<i'.st, t'.st>>]
 
